@@ -13,6 +13,19 @@ from .walker import Walker, WalkOptions, Event, PathExplosion
 class WriteSite:
     fn: FuncInfo
     ev: Event
+    owners: frozenset = frozenset()
+
+    @property
+    def owner_q(self) -> str:
+        """The function this write site belongs to for "who may write" rules: a private helper's site belongs to the
+        single public function that reaches it through private helpers (helper extraction is not a new writer)."""
+        if len(self.owners) == 1:
+            return next(iter(self.owners)).split('#')[0]
+        return self.fn.qualname
+
+    @property
+    def owner_name(self) -> str:
+        return self.owner_q.rsplit('.', 1)[-1]
 
     @property
     def loc(self):
@@ -50,19 +63,19 @@ class Effects:
         return fn.qualname + ('#setter' if fn.is_setter else '')
 
     def _build(self):
-        opts = WalkOptions(unroll=1, prune=False, callee_raises=False, inline_depth=0, max_paths=50000)
+        opts = WalkOptions(unroll=1, prune=False, callee_raises=False, inline_depth=0, max_paths=50000, inline_full=frozenset())
         for fn in self.prog.all_functions:
             k = self.key(fn)
             try:
                 paths = self.w.paths(fn, opts)
             except PathExplosion:
                 paths = self.w.paths(fn, WalkOptions(unroll=0, prune=False, callee_raises=False, inline_depth=0,
-                                                     max_paths=200000))
+                                                     max_paths=200000, inline_full=frozenset()))
             seen = set()
             sites, calls, unres = [], [], []
             for p in paths:
                 for e in p.events:
-                    ident = (e.kind, id(e.node), e.data.get('store'), e.data.get('callee_name'))
+                    ident = (e.kind, id(e.node), e.data.get('store'), e.data.get('callee_name'), e.data.get('attr'), repr(e.data.get('loc')))
                     if ident in seen:
                         continue
                     seen.add(ident)
@@ -79,6 +92,9 @@ class Effects:
             for c in calls:
                 for t in c.data.get('targets', []):
                     self.callees[k].add(self.key(t))
+        for k, sites in self.direct.items():
+            for s in sites:
+                s.owners = frozenset(self.public_roots(s.fn))
 
     # ------------------------------------------------------------------ queries
     def all_sites(self) -> List[WriteSite]:
@@ -163,6 +179,32 @@ class Effects:
                 else:
                     out.extend([(w, chain + ch) for w, ch in self.trans_writes(t)])
         return out
+
+    def public_roots(self, fn: FuncInfo) -> Set[str]:
+        """The non-private functions through which fn is reached when fn is a private helper: fn itself if it is not
+        private, otherwise every caller (through chains of private helpers only).  Rules that say "only X may write
+        this field" attribute a helper's write sites to these roots, so extracting a helper is not a new writer."""
+        def private(k):
+            name = k.split('#')[0].rsplit('.', 1)[-1]
+            return name.startswith('_') and not name.startswith('__')
+        k0 = self.key(fn)
+        if not private(k0):
+            return {k0}
+        roots, seen, stack = set(), set(), [k0]
+        while stack:
+            k = stack.pop()
+            if k in seen:
+                continue
+            seen.add(k)
+            callers = [c for c, cs in self.callees.items() if k in cs and c != k]
+            if not callers:
+                roots.add(k)
+            for c in callers:
+                if private(c):
+                    stack.append(c)
+                else:
+                    roots.add(c)
+        return roots
 
     def callers_of(self, fn: FuncInfo) -> List[Tuple[str, Event]]:
         k0 = self.key(fn)
